@@ -10,8 +10,12 @@ search : the statement itself in exact rational arithmetic on the implementation
          link rule, density bound / tie gap, mutual consistency, monotonicity, fresh twin),
          also through the data-driven subclasses
 """
+import contextlib
+import io
 import math
+import os
 import struct
+import tempfile
 from fractions import Fraction
 
 import numpy as np
@@ -46,8 +50,8 @@ def canon_density(ld, N):
     """the implementation's float density as the exact fraction nnz / (N (N-1)) it denotes"""
     M = N * (N - 1)
     x = float(ld) * M
-    r = round(x)
-    if abs(x - r) < 1e-6:
+    r = round(x) if math.isfinite(x) else 0
+    if M and abs(x - r) < 1e-6:
         return enc_fr(Fraction(r, M))
     return f"inexact:{ld!r}"
 
@@ -174,16 +178,26 @@ def apply_op(net, op):
         net.set_non_local(v)
 
 
-def run_history(grid, S0, init, ops, nl, directed):
+def run_history(case):
     """-> (list of canonical states or raise:<Error>, list of observed raw states, net)"""
+    init, ops = case["init"], case["ops"]
     states, raw = [], []
     net = None
     for n, op in enumerate([init] + list(ops)):
         try:
             if n == 0:
-                net = build(grid, S0, init, nl, directed)
+                if "builder" in case:
+                    with contextlib.redirect_stdout(io.StringIO()):
+                        net = case["builder"](init, case["nl"])
+                    # the similarity this very object stores (estimators need not be
+                    # reproducible, e.g. RainfallClimateNetwork: C10/C20's business)
+                    case["S0"] = np.array(net.similarity_measure(), dtype=float)
+                    case["replay"]["stored_similarity"] = case["S0"].tolist()
+                else:
+                    net = build(case["grid"], case["S0"], init, case["nl"], case["directed"])
             else:
-                apply_op(net, op)
+                with contextlib.redirect_stdout(io.StringIO()):
+                    apply_op(net, op)
         except Exception as e:  # noqa
             name = {"ZeroDivisionError": "ZeroDivision"}.get(type(e).__name__, type(e).__name__)
             states.append("raise:" + name)
@@ -319,6 +333,99 @@ def make_case(rng, N, nops, force=None):
             "init": init, "ops": ops, "tags": tags, "replay": replay}
 
 
+# --------------------------------------------------------------------------
+# subclasses that derive the similarity from data
+# --------------------------------------------------------------------------
+
+def f32(x):
+    return float(np.float32(x))
+
+
+def gen_data(rng, nprng, N):
+    """(T, N) observable with correlated, duplicated and negated columns (ties at |r| = 1)"""
+    T = rng.choice([24, 36, 48])
+    obs = nprng.randn(T, N)
+    for j in range(1, N):
+        r = rng.random()
+        if r < 0.2:
+            obs[:, j] = obs[:, rng.randrange(j)]
+        elif r < 0.35:
+            obs[:, j] = -obs[:, rng.randrange(j)]
+        elif r < 0.6:
+            obs[:, j] += rng.choice([0.5, 1, 2]) * obs[:, rng.randrange(j)]
+    return obs
+
+
+# HilbertClimateNetwork(directed=True) is left out: by documented design it additionally masks
+# the thresholded matrix with the sign of the phase shift (a different link rule).
+SUBCLASSES = ["Tsonis", "Spearman", "PartialCorrelation", "MutualInfo", "Havlin",
+              "HilbertUndirected", "Rainfall", "CoupledTsonis", "Coupled", "CoupledDirected"]
+
+
+def make_subclass_case(rng, nprng, cls, nops):
+    import pyunicorn.climate as C
+    N = rng.choice([3, 4, 5, 6])
+    grid = gen_grid(rng, N)
+    T_obs = gen_data(rng, nprng, N)
+    T = T_obs.shape[0]
+    from pyunicorn.core import GeoGrid
+    grid = GeoGrid(np.arange(T, dtype=float), grid.lat_sequence(), grid.lon_sequence(),
+                   silence_level=3)
+    directed = cls == "CoupledDirected"
+    sim_in = None
+    if cls in ("Coupled", "CoupledDirected"):
+        sim_in, _ = gen_sim(rng, 2 * N)
+
+    def builder(init, nl):
+        kw = {"threshold": init[1]} if init[0] == "T" else {"link_density": init[1]}
+        kw.update(non_local=nl, silence_level=3)
+        data = C.ClimateData(observable=T_obs.copy(), grid=grid, time_cycle=12,
+                             silence_level=3)
+        if cls == "Tsonis":
+            return C.TsonisClimateNetwork(data, winter_only=False, **kw)
+        if cls == "Spearman":
+            return C.SpearmanClimateNetwork(data, winter_only=False, **kw)
+        if cls == "PartialCorrelation":
+            return C.PartialCorrelationClimateNetwork(data, winter_only=False, **kw)
+        if cls == "MutualInfo":
+            return C.MutualInfoClimateNetwork(data, winter_only=False, **kw)
+        if cls == "Havlin":
+            return C.HavlinClimateNetwork(data, max_delay=2, **kw)
+        if cls == "HilbertUndirected":
+            return C.HilbertClimateNetwork(data, directed=False, **kw)
+        if cls == "Rainfall":
+            return C.RainfallClimateNetwork(data, **kw)
+        if cls == "CoupledTsonis":
+            return C.CoupledTsonisClimateNetwork(data, data, **kw)
+        return C.CoupledClimateNetwork(grid, grid, sim_in.copy(), directed=directed, **kw)
+
+    try:
+        with contextlib.redirect_stdout(io.StringIO()):
+            probe = builder(("T", 0.5), False)
+    except Exception:  # noqa   (estimating the similarity is C10's business)
+        return None
+    S0 = np.array(probe.similarity_measure(), dtype=float)      # stored |similarity| (float32)
+    if not np.all(np.isfinite(S0)):
+        return None
+    d32, d64 = damp_of(probe.grid)
+    nl = rng.random() < 0.35
+    thr = lambda: f32(gen_threshold(rng, S0))  # noqa: E731
+    M = S0.shape[0]
+    init = ("T", thr()) if rng.random() < 0.5 else ("D", gen_density(rng, M))
+    ops = [(k, f32(v)) if k == "T" else (k, v) for k, v in gen_ops(rng, S0, M, nops)]
+    offmax = float((S0 - np.diag(np.diag(S0))).max())
+    tags = {"sym": bool(np.array_equal(S0, S0.T)), "levels": 0,
+            "diag": "maximal" if float(np.diag(S0).min()) >= offmax else "non-maximal"}
+    replay = {"class": cls, "N": M, "observable": T_obs.tolist(),
+              "similarity_in": None if sim_in is None else sim_in.tolist(),
+              "stored_similarity": S0.tolist(), "lat": probe.grid.lat_sequence().tolist(),
+              "lon": probe.grid.lon_sequence().tolist(), "directed": directed, "non_local": nl,
+              "init": list(init), "ops": [list(o) for o in ops]}
+    return {"cls": cls, "builder": builder, "S0": S0, "grid": probe.grid, "d32": d32, "d64": d64,
+            "directed": directed, "nl": nl, "init": init, "ops": ops, "tags": tags,
+            "replay": replay}
+
+
 def request_of(case):
     N = case["S0"].shape[0]
     return ("hist {} {} {} {} {} {} {}".format(
@@ -329,8 +436,7 @@ def request_of(case):
 def exercise(ctx, case, reqs, impl, kept):
     """run the implementation on one case: oracle always, correspondence unless a non-local
     state sits on a float32 near-tie"""
-    states, raw, net = run_history(case["grid"], case["S0"], case["init"], case["ops"],
-                                   case["nl"], case["directed"])
+    states, raw, net = run_history(case)
     prev = None
     skip = False
     for st in raw:
@@ -345,18 +451,28 @@ def exercise(ctx, case, reqs, impl, kept):
     t = case["tags"]
     N = case["S0"].shape[0]
     ctx.count(f"N={N}" if N <= 8 else "N>8")
+    if "cls" in case:
+        ctx.count("class=" + case["cls"])
     ctx.count("diag=" + t["diag"])
     ctx.count("sym" if t["sym"] else "asym")
     ctx.count("directed" if case["directed"] else "undirected")
     ctx.count("init=" + case["init"][0] + (",non_local" if case["nl"] else ""))
     for o in case["ops"]:
         ctx.count("op=" + o[0])
-    for s in states:
+    for n, s in enumerate(states):
         if s.startswith("raise:"):
             ctx.count(s)
+            if N >= 2:
+                op = ([case["init"]] + list(case["ops"]))[n]
+                ctx.fail({"class": case.get("cls", "ClimateNetwork"), "kind": "raises",
+                          "error": s[6:], "call": ("constructor:" if n == 0 else "setter:") + op[0]},
+                         f"{'constructor' if n == 0 else 'setter'} with "
+                         f"{'threshold' if op[0] == 'T' else 'link_density' if op[0] == 'D' else 'non_local'}"
+                         f"={op[1]} raised {s[6:]} on a valid {N}-node input",
+                         dict(case["replay"], failing_call=list(op), call_index=n))
     nontriv = N >= 2 and any(
         st is not None and 0 < int(np.count_nonzero(st["A"])) < N * (N - 1) for st in raw)
-    canon = (N, case["S0"].tobytes().hex(), case["directed"], case["nl"],
+    canon = (case.get("cls", ""), N, case["S0"].tobytes().hex(), case["directed"], case["nl"],
              enc_op(case["init"]), [enc_op(o) for o in case["ops"]],
              case["replay"]["lat"], case["replay"]["lon"])
     ctx.case(canon, nontriv, case["replay"] if N <= 4 else None)
@@ -388,13 +504,13 @@ def run(ctx):
 
     reqs, impl, kept = [], [], []
     # ---------------- constructor-only cases: many matrices x thresholds / densities ---------
-    nmat = 250 if quick else 2500
+    nmat = 800 if quick else 8000
     sizes = [2, 3, 3, 4, 4, 5, 6, 8, 12] if quick else [2, 3, 4, 5, 6, 8, 12, 16, 24]
     for _ in range(nmat):
         N = rng.choice(sizes)
         exercise(ctx, make_case(rng, N, rng.choice([0, 1, 2, 5])), reqs, impl, kept)
     # ---------------- long histories ---------------------------------------------------------
-    for _ in range(60 if quick else 600):
+    for _ in range(200 if quick else 2000):
         N = rng.choice([2, 3, 4, 5, 7])
         exercise(ctx, make_case(rng, N, rng.randrange(6, 9 if quick else 13)), reqs, impl, kept)
     # ---------------- edge cases ------------------------------------------------------------
@@ -403,6 +519,21 @@ def run(ctx):
             exercise(ctx, make_case(rng, N, 2), reqs, impl, kept)
     bad, model = ctx.correspond(
         "Lean Similarity model == ClimateNetwork (constructor + setter histories)", reqs, impl)
+    # ---------------- subclasses deriving the similarity from data ---------------------------
+    nprng = np.random.RandomState(rng.randrange(2 ** 31))
+    sreqs, simpl, skept = [], [], []
+    os.chdir(tempfile.mkdtemp(prefix="C09-"))     # MutualInfo reads/writes a file in the cwd
+    for cls in SUBCLASSES:
+        for _ in range(15 if quick else 150):
+            with contextlib.redirect_stdout(io.StringIO()):
+                case = make_subclass_case(rng, nprng, cls, rng.choice([1, 3, 6]))
+            if case is None:
+                ctx.count("class=" + cls + ": similarity not computable / not finite (skipped)")
+                continue
+            with contextlib.redirect_stdout(io.StringIO()):
+                exercise(ctx, case, sreqs, simpl, skept)
+    ctx.correspond("Lean Similarity model == subclasses of ClimateNetwork on their stored "
+                   "similarity", sreqs, simpl)
     ctx.extra["histories_compared"] = len(reqs)
     ctx.extra["states_compared"] = sum(s.count(";") + 1 for s in impl)
 
